@@ -642,8 +642,18 @@ def run_validator_stream(ck, d, impl, model, rng, stats):
             pinned += 1       # the operand-count quirk (reported by run_forms with the instruction's name)
             continue
         stats["validator_model_diff"] = stats.get("validator_model_diff", 0) + 1
-        ck.violation("C13/correspondence/validate", "InstAPI::validate answers %d, the model %s on %r" % (v, m[1:], c),
-                     {"command": c, "impl": x, "model": y, "broken": "correspondence of X86Validate model with /repo"}, no_input=True)
+        # sharper search: is this very tuple a failing input of the PROPERTY (validator accepts what the assembler refuses)? ask the real assembler
+        found = False
+        if int(c.split()[1]) < 2 and v == 0:
+            rc_, o_, e_ = vlib.sh([impl], inp="E " + c[2:] + "\n", timeout=60)
+            a_ = o_.split()
+            if len(a_) == 9 and int(a_[1]) == 0 and int(a_[2]) != 0:
+                found = True
+                ck.violation("C13/validator-accepts-encoder-refuses/%s/model-diff" % c.split()[2], "the validator accepts (model: refuses with %s) and the assembler refuses with %s: %r"
+                             % (m[1], a_[2], "E " + c[2:]), {"command": "E " + c[2:], "impl": o_.strip(), "model": y})
+        if not found:
+            ck.violation("C13/correspondence/validate", "InstAPI::validate answers %d, the model %s on %r" % (v, m[1:], c),
+                         {"command": c, "impl": x, "model": y, "broken": "correspondence of X86Validate model with /repo"}, no_input=True)
     stats.update({"validator_stream_cmds": len(cmds), "validator_stream_accepted": acc, "validator_stream_unbuildable": unbuildable,
                   "validator_stream_pinned_quirk_answers": pinned, "validator_stream_errors_seen": {str(k): v for k, v in sorted(errs.items())}})
     z = list(zip(cmds, ri, rm))
@@ -745,6 +755,83 @@ def run_row_representatives(ck, d, impl, model, stats):
     if os.environ.get("C13_VENDOR") == "1":
         open(os.path.join(CORPUS, "row_representatives_refused_by_assembler_x86.txt"), "w").write(
             "# C13: E commands of row representatives (rep_ops) that validate but that the assembler refuses: known\n" + "".join(c + "\n" for c in refused_now))
+
+
+# ------------------------------------------------------------------ random STANDARD instances of database rows (C13_db_row_validates_standard): the real validator must accept all
+STD_CLASSES = {1: (2, 0, 3, (0, 1)), 2: (3, 0, 3, (0, 1)), 4: (4, 0, 7, (0, 1)), 8: (5, 0, 7, (0, 1)), 16: (6, 0, 7, (1,)), 32: (11, 0, 7, (0, 1)), 64: (12, 0, 7, (0, 1)),
+               128: (13, 0, 7, (0, 1)), 256: (28, 0, 7, (0, 1)), 512: (16, 0, 7, (0, 1)), 1024: (25, 1, 6, (0, 1)), 2048: (26, 0, 7, (0, 1)), 4096: (27, 0, 7, (0, 1)),
+               8192: (29, 0, 7, (0, 1)), 16384: (30, 0, 3, (0, 1)), 32768: (17, 0, 7, (0, 1))}
+STD_MEM = {0x40000: 0, 0x80000: 1, 0x100000: 2, 0x200000: 4, 0x400000: 6, 0x800000: 8, 0x1000000: 10, 0x2000000: 16, 0x4000000: 32, 0x8000000: 64}
+STD_IMM = [(0x1000000000, (-8, 7)), (0x2000000000, (0, 15)), (0x4000000000, (-128, 127)), (0x8000000000, (0, 255)), (0x10000000000, (-32768, 32767)), (0x20000000000, (0, 65535)),
+           (0x40000000000, (-(1 << 31), (1 << 31) - 1)), (0x80000000000, (0, (1 << 32) - 1)), (0x100000000000, (-(1 << 63), (1 << 63) - 1)), (0x200000000000, (0, (1 << 63) - 1))]
+OPMASK_ = 281474439643135
+
+
+def std_instance_tok(rng, mode, need, fixed):
+    """a random standard instance (ValidateModel.std_instance) of one explicit database operand, or None (vector-index memory: not a standard kind)"""
+    kind = need & OPMASK_
+    if kind in STD_CLASSES and need == kind:
+        rt, lo, hi, modes = STD_CLASSES[kind]
+        if mode not in modes:
+            return None
+        rid = fixed.bit_length() - 1 if fixed else rng.randint(lo, hi)
+        return "R %d %d" % (rt, rid)
+    if kind in STD_MEM and fixed == 0:
+        mb = bool(need & (1 << 48))
+        off = 0 if mb else rng.choice([0, 16, -16, 127, 128, -129, 2147483647, -2147483648, rng.randint(-(1 << 31), (1 << 31) - 1)])
+        return "M %d %d %d 0 0 0 %d 0 0 0" % (STD_MEM[kind], 6 if mode else 5, rng.randint(0, 7), off)
+    if need & 0x3FF000000000 and fixed == 0:
+        rngs = [r for b, r in STD_IMM if need & b]
+        lo, hi = rng.choice(rngs)
+        return "I %d" % rng.choice([lo, hi, rng.randint(lo, hi)])
+    if need & 0xC00000000000 and fixed == 0:
+        return "L"
+    return None
+
+
+def run_standard_instances(ck, d, impl, model, rng, stats):
+    rows = read_corpus_lines("db_rows_x86.txt")
+    names = c13_gen.all_names(d, "x86")
+    per = 1 if ck.tier == "quick" else 8
+    kdec = set(l.split()[0] for l in read_corpus_lines("db_decorations_x86.txt") if l.split()[1] == "k")     # instructions the database grants {k}
+    lockdec = set(l.split()[0] for l in read_corpus_lines("db_decorations_x86.txt") if l.split()[1] == "lock")
+    cmds = []
+    skipped = 0
+    for l in rows:
+        t = [int(x) for x in l.split("\t")[0].split()]
+        iid, mode, n = t[0], t[1], t[2]
+        ops = [(t[3 + 3 * k], t[4 + 3 * k], t[5 + 3 * k]) for k in range(n)]
+        for m in (0, 1):
+            if not mode & (1 << m):
+                continue
+            for _ in range(per):
+                toks = [std_instance_tok(rng, m, nd, fx) for nd, fx, im in ops if not im]
+                if any(x is None for x in toks):
+                    skipped += 1
+                    continue
+                cmds.append("E %d %d 0 0 0 %d%s" % (m, iid, len(toks), "".join(" " + x for x in toks)))
+                if names[iid] in lockdec and toks and toks[0].startswith("M "):
+                    cmds.append("E %d %d 8192 0 0 %d%s" % (m, iid, len(toks), "".join(" " + x for x in toks)))
+                if names[iid] in kdec:
+                    cmds.append("E %d %d 0 16 %d %d%s" % (m, iid, rng.randint(1, 7), len(toks), "".join(" " + x for x in toks)))
+    ri = run_sharded(impl, cmds)
+    rm = run_sharded(model, cmds)
+    if isinstance(ri, tuple) or isinstance(rm, tuple):
+        ck.violation("C13/harness-crash", "harness or model failed on the standard-instance stream: %s" % ((ri if isinstance(ri, tuple) else rm),), {"commands": cmds[:3]}, no_input=True)
+        return
+    enc = 0
+    for c, x, y in zip(cmds, ri, rm):
+        a = x.split()
+        nm = names[int(c.split()[2])]
+        if len(a) != 9:
+            ck.violation("C13/harness-protocol", "harness could not build %r: %r" % (c, x), {"command": c, "detail": x}, no_input=True)
+            continue
+        verr, e0 = int(a[1]), int(a[2])
+        if verr != 0 or int(y.split()[1]) != 0:
+            ck.violation("C13/standard-instance-refused/%s" % nm, "a standard instance of a database row (theorem C13_db_row_validates_standard: accepted for ALL such operands) is refused: "
+                         "InstAPI::validate = %d, model = %s: %r" % (verr, y.split()[1], c), {"command": c, "impl": x, "model": y})
+        enc += e0 == 0
+    stats.update({"standard_instances": len(cmds), "standard_instances_encoded": enc, "standard_instances_rows_with_vector_index_skipped": skipped})
 
 
 # ------------------------------------------------------------------ emitter-level hook across CodeHolder switches
@@ -933,6 +1020,7 @@ def run(ck):
     form_samples += run_validator_stream(ck, d, impl, model, rng, stats)
     run_history_stream(ck, impl, model, rng, stats)
     run_row_representatives(ck, d, impl, model, stats)
+    run_standard_instances(ck, d, impl, model, rng, stats)
 
     # proofs
     for n in regen_failed:
@@ -949,10 +1037,10 @@ def run(ck):
     # a gen file whose reflection lemmas fail has no .vo, so Properties_C13.v as a whole cannot be compiled: attribute the failure to the
     # theorems that rest on that file (the others are listed in the evidence as not re-checkable in this run)
     THEOREM_GEN = {"X86DbDecor.v": ["C13_db_rows_decorated_representatives_validate"],  # (C13_emitter_history_irrelevant, C13_validate_pure, ... rest on no gen file)
-                   "X86DbRows.v": ["C13_signature_rows_present", "C13_db_row_signature_stage", "C13_signature_records_have_db_origin",
+                   "X86DbRows.v": ["C13_signature_rows_present", "C13_db_row_signature_stage", "C13_signature_records_have_db_origin", "C13_accepted_call_has_database_origin",
                                    "C13_signature_kinds_have_db_origin", "C13_db_decorations_present", "C13_db_row_validates", "C13_db_row_validates_plain"],
                    "X86Forms.v": ["C13_db_forms_validate", "C13_db_excluded_forms_refused", "C13_validate_operand_count_refuted"],
-                   "X86Sigs.v": ["C13_validator_code_cases_match_source", "C13_validator_tables_wf", "C13_signature_rows_present", "C13_db_row_signature_stage", "C13_validate_refuses_gpq_in_32bit", "C13_db_forms_validate", "C13_db_excluded_forms_refused", "C13_validate_operand_count_refuted"],
+                   "X86Sigs.v": ["C13_db_row_validates_standard_lock", "C13_db_row_validates_standard_masked", "C13_db_row_validates_standard", "C13_standard_registers_are_acceptable", "C13_plain_memory_operands_are_acceptable", "C13_db_row_validates_operandwise", "C13_validator_code_cases_match_source", "C13_validator_tables_wf", "C13_signature_rows_present", "C13_db_row_signature_stage", "C13_validate_refuses_gpq_in_32bit", "C13_db_forms_validate", "C13_db_excluded_forms_refused", "C13_validate_operand_count_refuted"],
                    "X86Names.v": ["C13_api_methods_name_their_ids_x86", "C13_find_correct", "C13_name_tables_in_bounds", "C13_name_roundtrip_x86", "C13_alias_roundtrip_x86",
                                   "C13_string_to_inst_id_correct_x86", "C13_string_to_inst_id_none_x86", "C13_alias_formats_roundtrip_x86",
                                   "C13_alias_table_from_formats_x86"],
